@@ -849,14 +849,21 @@ def mon_c10(case_line, acts):
     K = 0
     last = None            # time of the last completed client packet, None = not measuring
     outstanding = None     # flush time of the PINGREQ still awaiting its PINGRESP
+    answered = None        # (flush time, arrival time of its PINGRESP) of the most recent answered PINGREQ
     wire = bytearray()
     inb = bytearray()
     wpos = ipos = 0
     unflushed = []         # packet types fully written but not yet flushed
+
+    def blocked(deadline):
+        # was a PINGREQ awaiting its answer at `deadline`?  (K10: the next PINGREQ is not sent while one is outstanding)
+        return (outstanding is not None and outstanding <= deadline) or \
+               (answered is not None and answered[0] <= deadline <= answered[1])
+
     for i, a in enumerate(acts):
         if a.code == 0:
             wire = bytearray(); inb = bytearray(); wpos = ipos = 0; unflushed = []
-            tainted = False; outstanding = None; last = None; live = False
+            tainted = False; outstanding = None; last = None; live = False; answered = None
         if a.code == 9:
             last = None
         if garbles(a, acts[i - 1].state if i > 0 else None):
@@ -876,7 +883,7 @@ def mon_c10(case_line, acts):
                     elif K > 0 and last is not None and now - last > K:
                         # serviced at `now`, more than K after the last completion, and waiting on (a wait that merely
                         # ends past last + K is not counted: the runner's 100 ms re-poll granularity is not the client's)
-                        cls = 'K10' if (K < RTT_MS and outstanding is not None) else None
+                        cls = 'K10' if (K < RTT_MS and blocked(last + K)) else None
                         out.append(V('no client packet completed between %d ms and %d ms: gap exceeds the keep-alive of %d ms'
                                      % (last, now, K), cls))
                         last = None
@@ -898,7 +905,7 @@ def mon_c10(case_line, acts):
                 else:
                     if unflushed and not tainted and a.code != 0:
                         if K > 0 and last is not None and now - last > K:
-                            cls = 'K10' if (K < RTT_MS and outstanding is not None) else None
+                            cls = 'K10' if (K < RTT_MS and blocked(last + K)) else None
                             out.append(V('client packets completed at %d ms and %d ms: gap exceeds the keep-alive of %d ms'
                                          % (last, now, K), cls))
                         last = now
@@ -918,6 +925,8 @@ def mon_c10(case_line, acts):
                     for first, body in parse_server_packets(inb[ipos:]):
                         ipos += 1 + len(body) + len(_varint_bytes(len(body)))
                         if first >> 4 == 13:
+                            if outstanding is not None:
+                                answered = (outstanding, now)
                             outstanding = None
                         elif first >> 4 == 14 or first >> 4 == 2:
                             cause = 'packet'
@@ -1683,7 +1692,7 @@ def mon_c19_handle(case_line, acts):
 
 
 # ---------------------------------------------------------------- C08: what is certainly valid must be accepted
-def mon_c08_valid(case_line, acts):
+def mon_c08_valid(case_line, acts, only=None):
     """a broker packet that the independent validator (mqttspec.parse_server_packet) finds certainly valid, that fits the
     receive buffer and that is legal at that point of the connection (CONNACK only as the answer to CONNECT) must not
     be answered with the invalid-packet error"""
@@ -1711,6 +1720,16 @@ def mon_c08_valid(case_line, acts):
             continue
         if (p['type'] == 'CONNACK') != (a.code == 0):
             continue
+        if only is not None and p['type'] not in only:
+            continue
+        cls = None
+        if p['type'] == 'CONNACK' and any(k == 0x12 and len(v) > 64 for k, v in p.get('props', [])):
+            cls = 'K08a'       # Assigned Client Identifier longer than the 64 bytes the client can store
         out.append(V('a valid %s from the broker (%s) was answered with InvalidPacket at action #%d'
-                     % (p['type'], raw.hex()[:100], i)))
+                     % (p['type'], raw.hex()[:100], i), cls))
     return out
+
+
+def mon_c04_valid(case_line, acts):
+    """C04's share of mon_c08_valid: a certainly valid PUBLISH is never answered with InvalidPacket"""
+    return mon_c08_valid(case_line, acts, only=('PUBLISH',))
